@@ -461,4 +461,107 @@ theorem vWalk_sound (ls : List KLayer) (hls : KLayersOK ls) (m : Mem) (hm : Keys
           have := hinner qc (List.mem_filter.mp hqc).1
           simpa [fullKey] using this
 
+
+/-! ### Membership vs lookup; walk exactness for the memory bucket; putAll -/
+
+theorem find_none_of_not_mem_keys {m : Mem} {k : Str} (h : k ∉ m.map (·.1)) : Mem.find m k = none := by
+  induction m with
+  | nil => simp [Mem.find]
+  | cons kv rest ih =>
+    obtain ⟨a, b⟩ := kv
+    simp at h
+    rw [find_cons_ne _ _ _ _ (fun e => h.1 e.symm)]
+    exact ih (by simpa using h.2)
+
+theorem mem_iff_find {m : Mem} (hn : NodupKeys m) (k : Str) (c : Content) :
+    (k, c) ∈ m ↔ Mem.find m k = some c := by
+  constructor
+  · intro hmem
+    induction m with
+    | nil => cases hmem
+    | cons kv rest ih =>
+      obtain ⟨a, b⟩ := kv
+      unfold NodupKeys at hn
+      simp only [List.map, List.nodup_cons] at hn
+      rcases List.mem_cons.mp hmem with e | hr
+      · injection e with e1 e2; subst e1; subst e2; exact find_cons_eq _ _ _
+      · have hak : a ≠ k := by
+          intro e; subst e
+          exact hn.1 (List.mem_map.mpr ⟨(a, c), hr, rfl⟩)
+        rw [find_cons_ne _ _ _ _ hak]
+        exact ih hn.2 hr
+  · exact find_some_mem
+
+/-- Walk on the memory bucket returns exactly the objects whose key extends the prefix key
+    (component-wise), each once. -/
+theorem memWalk_exact (m : Mem) (hv : KeysValid m) (hn : NodupKeys m) (pfx : Str)
+    (objs : List (Str × Content)) (h : memWalk m pfx = .ok objs) :
+    ∃ kq : Key, AllProper kq ∧ normalizeAndValidate pfx = .ok (renderKey kq) ∧
+      NodupKeys objs ∧
+      ∀ (k : Key) (c : Content), AllProper k →
+        ((renderKey k, c) ∈ objs ↔ (kq <+: k ∧ Mem.find m (renderKey k) = some c)) := by
+  unfold memWalk validatePrefix at h
+  cases hnv : normalizeAndValidate pfx with
+  | error e => rw [hnv] at h; cases h
+  | ok p =>
+    rw [hnv] at h
+    injection h with h
+    obtain ⟨kq, hkq, hp⟩ := validate_sound pfx p hnv
+    refine ⟨kq, hkq, by rw [hp], ?_, ?_⟩
+    · rw [← h]; exact nodupKeys_filter hn _
+    · intro k c hk
+      rw [← h, List.mem_filter, hp, mem_iff_find hn]
+      constructor
+      · intro ⟨h1, h2⟩; exact ⟨(ecp_keys hkq hk).mp h2, h1⟩
+      · intro ⟨h1, h2⟩; exact ⟨h2, (ecp_keys hkq hk).mpr h1⟩
+
+def lookupObjs (objs : List (Str × Content)) (k : Str) : Option Content := Mem.find objs k
+
+/-- Copy / untar∘tar: putting a walked object list into a bucket. -/
+theorem putAll_spec (objs : List (Str × Content)) (hv : KeysValid objs) (hn : NodupKeys objs) (m : Mem) :
+    ∃ m', putAll m objs = .ok m' ∧
+      ∀ k : Str, Mem.find m' k = (match Mem.find objs k with | some c => some c | none => Mem.find m k) := by
+  induction objs generalizing m with
+  | nil => exact ⟨m, rfl, by intro k; simp [Mem.find]⟩
+  | cons o rest ih =>
+    obtain ⟨q, c⟩ := o
+    obtain ⟨kk, hkk, hne, hq⟩ := hv (q, c) (by simp)
+    simp only at hq
+    have hput : memPut m q c = .ok ((q, c) :: m.erase q) := by
+      unfold memPut; rw [hq, validatePath_renderKey hkk hne]
+    have hvr : KeysValid rest := fun kv hkv => hv kv (List.mem_cons_of_mem _ hkv)
+    have hnr : NodupKeys rest := by
+      unfold NodupKeys at hn ⊢; simp only [List.map, List.nodup_cons] at hn; exact hn.2
+    have hq_notin : q ∉ rest.map (·.1) := by
+      unfold NodupKeys at hn; simp only [List.map, List.nodup_cons] at hn; exact hn.1
+    obtain ⟨m', hm', hfind⟩ := ih hvr hnr ((q, c) :: m.erase q)
+    refine ⟨m', by simp only [putAll, hput, hm'], ?_⟩
+    intro k
+    rw [hfind k]
+    by_cases hk : q = k
+    · subst hk
+      rw [find_none_of_not_mem_keys hq_notin, find_cons_eq, find_cons_eq]
+    · rw [find_cons_ne q k c rest hk]
+      cases hf : Mem.find rest k with
+      | some c' => rfl
+      | none => simp only; rw [find_cons_ne _ _ _ _ hk, find_erase_ne _ _ _ hk]
+
+
+theorem mergeMulti_dup (oa : List (Str × Content)) (k : Str) (ca cb : Content) (hka : (k, ca) ∈ oa) :
+    ∀ ob : List (Str × Content), (k, cb) ∈ ob → mergeMulti oa ob = .error .multiple := by
+  intro ob
+  induction ob with
+  | nil => intro h; cases h
+  | cons o rest ih =>
+    intro hkb
+    unfold mergeMulti
+    by_cases hs : hasKey oa o.1 = true
+    · simp [hs]
+    · have hs' : hasKey oa o.1 = false := by simpa using hs
+      rcases List.mem_cons.mp hkb with e | hr
+      · exfalso; apply hs; subst e
+        unfold hasKey; exact List.any_eq_true.mpr ⟨(k, ca), hka, by simp⟩
+      · simp only [hs', Bool.false_eq_true, if_false]
+        rw [ih hr]
+
 end BufModel.Bucket
